@@ -287,6 +287,7 @@ func evalC09(c *engine.Case) engine.Verdict {
 					// by redefining there too (the twin's Redefine is not under test)
 					var callArgs []argmapper.Arg
 					tok := 700 + si*10
+					var freshIns []engine.Input
 					for _, iv := range rf.Input().Values() {
 						ti := engine.TypeIdx(iv.Type)
 						if ti < 0 || engine.IsIface(ti) {
@@ -296,6 +297,7 @@ func evalC09(c *engine.Case) engine.Verdict {
 						in := engine.Input{L: engine.Label{Name: iv.Name, Type: ti, Sub: iv.Subtype, Dyn: ti}, Tok: tok}
 						real.RegisterInput(in)
 						twin.RegisterInput(in)
+						freshIns = append(freshIns, in)
 						callArgs = append(callArgs, engine.InputArg(in))
 					}
 					for t2 := 700 + si*10 + 1; t2 <= tok; t2++ {
@@ -321,7 +323,13 @@ func evalC09(c *engine.Case) engine.Verdict {
 						diverged = true
 					} else {
 						ot := twin.Call(trf, callArgs)
-						if wellFor(st) && !diverged && !hasFailing(sc) && outcomeClass(or) != outcomeClass(ot) {
+						// the premise under which outcomes are stable is judged on
+						// what the INNER call sees: the step's arguments plus the
+						// values handed to the redefined function
+						inner := *stepScenario(st)
+						inner.Inputs = append(append([]engine.Input(nil), inner.Inputs...), freshIns...)
+						wellInner := engine.SingleInput(&inner) || (!engine.DepCyclic(&inner, engine.RPlus) && engine.AllConvsSatisfiable(&inner, engine.RMinus))
+						if wellFor(st) && wellInner && !diverged && !hasFailing(sc) && outcomeClass(or) != outcomeClass(ot) {
 							v.Failf("step %d: redefined call outcome %s, twin %s", si, outcomeClass(or), outcomeClass(ot))
 							return v
 						}
